@@ -22,16 +22,16 @@ func vfModelSize(n uint64) uint64 { return 1000 + n%5000 }
 
 // c03Model: the peer's reply to a request is a pure function of the request.
 type vfModel struct {
-	mu       sync.Mutex
-	handles  map[string]uint64 // handle -> file number
-	nh       int
-	writes   map[string][]byte // handle:offset -> data
-	inflight map[uint32]bool
-	maxIn    int
-	noWriteFail bool // if set: WRITE never fails
-	short    *vfRand // if set: READ replies carry a random non-empty prefix of what was asked (legal for a server)
-	dupID    string
-	badFrame string
+	mu          sync.Mutex
+	handles     map[string]uint64 // handle -> file number
+	nh          int
+	writes      map[string][]byte // handle:offset -> data
+	inflight    map[uint32]bool
+	maxIn       int
+	noWriteFail bool    // if set: WRITE never fails
+	short       *vfRand // if set: READ replies carry a random non-empty prefix of what was asked (legal for a server)
+	dupID       string
+	badFrame    string
 }
 
 func (m *vfModel) handler(req vfPkt, raw []byte) []byte {
@@ -119,4 +119,3 @@ func (m *vfModel) handler(req vfPkt, raw []byte) []byte {
 	}
 	return st(rfUnsupported, "unsupported")
 }
-
